@@ -20,7 +20,8 @@ IONS = ("p", "b", "y", "c", "z")
 # ------------------------------------------------------------------------------------------------ static rules
 
 def static_scenarios(tier: str) -> List[Dict[str, Any]]:
-    seqs = ["P", "PEP", "KCMK"] if tier == "quick" else ["P", "PEP", "KCMK", "CCKACK", "MKKMKKM"]
+    # since session 5 the quick tier runs what used to be the thorough scope (seconds); thorough adds longer peptides
+    seqs = ["P", "PEP", "KCMK", "CCKACK", "MKKMKKM"] + (["STSTKSTS", "ACDEFGHIKLA", "MNPQRSTVWYUOM"] if tier == "thorough" else [])
     kinds = [("num", "v0"), ("formula", "C2H3"), ("unimod", "Acetyl"), ("glycan", "Hex2")]
     out = []
     k = 0
@@ -46,8 +47,6 @@ def static_scenarios(tier: str) -> List[Dict[str, Any]]:
                                 sc["static"].append([[seq[-1]], [["num", "v4", 1]]])
                             out.append(sc)
                             k += 1
-    if tier == "quick":
-        out = out[::2]
     return out
 
 
@@ -236,7 +235,7 @@ END_GROUPS = {  # atoms added to the residues for a singly charged ion (charge c
 
 
 def label_scenarios(tier: str) -> List[Dict[str, Any]]:
-    seqs = ["G", "CM", "KSW"] if tier == "quick" else ["G", "CM", "KSW", "UHDE", "PEPTIDE"]
+    seqs = ["G", "CM", "KSW", "UHDE", "PEPTIDE"] + (["ACFILNQRTVY", "OMWKSC"] if tier == "thorough" else [])
     labs = [[l] for l in LABELS] + [["13C", "15N"], ["D", "18O"], ["34S", "T"]]
     out = []
     k = 0
@@ -248,8 +247,6 @@ def label_scenarios(tier: str) -> List[Dict[str, Any]]:
                         continue
                     for mono in (True, False):
                         k += 1
-                        if tier == "quick" and k % 2:
-                            continue
                         out.append({"seq": seq, "labels": lab, "mod": withmod, "on_mods": on_mods, "mono": mono})
     return out
 
@@ -436,7 +433,7 @@ def run(tier: str, seed: int, only=None) -> Report:
                     "Isotope labels: with every element and isotope mass symbolic (mode B tables) mass(labelled) - mass(plain) must equal "
                     "atom count x (isotope - element mass) with atom counts from the independent residue formulas.",
         functions=FUNCS,
-        bounds="static: sequences with repeated letters up to length 4 (quick) / 7 (thorough); rules with 1-3 targets among residues, N-Term, "
+        bounds="static: sequences with repeated letters up to length 7 (quick) / 13 (thorough; all 22 letters occur); rules with 1-3 targets among residues, N-Term, "
                "C-Term and 1-2 modifications (numeric, Formula, Unimod, Glycan), several rules at once, residues already modified; ions "
                "p,b,y,c,z; labels: 13C,15N,18O,17O,34S,D,T,2H and three pairs, with/without a Formula or numeric modification, "
                "use_isotope_on_mods both",
